@@ -6,6 +6,9 @@ HERE = os.path.dirname(os.path.dirname(os.path.abspath(__file__)))
 TECH = "deterministic simulation with fault injection: seeded search over operation/fault histories against a reference model, ddmin-minimised replay files"
 
 CLAIMED = {
+ "C16": dict(section="5.8", level="exploration",
+   text="A simulated directory (real tmpfs files; builtins.open/io.open behind a fault-injecting proxy; ffmpeg replaced by an in-process fake) with few colliding names incl. multi-dot names, a sub-directory and six spellings of every path (str/Path x relative/absolute/./-prefixed/..-containing). Seeded histories (<= 12 operations) of export_landmark_file (.ljson with every shape class, 2D/3D, NaN coordinates, unicode ordered labels, empty edge sets, managers and dicts; .pts), export_pickle (.pkl/.pkl.gz, protocols 2-5; shapes, images, transforms, chains, PCA/GMRF models, managers, containers, objects carrying a path), export_image (png/bmp/tif/tiff/ppm/pgm; 8-bit data as floats and as uint8, arbitrary floats, boolean), export_video, with overwrite on/off, later imports, import->export->re-import of images, foreign files appearing and files being removed, checked against a reference file-system model (path -> absent / clean(snapshot) / foreign / dirty): a refused export raises OverwriteError and leaves the bytes identical; an accepted export round-trips immediately and whenever the path is read later under the statement's per-format equality; no operation changes any other path; Path.__reduce__ is restored. Fault-injecting runs (separate from fault-free ones) arm one open/write/torn-write/flush/close/read fault (ENOSPC, EIO, EACCES, EMFILE) inside an operation: the faulted operation may fail and dirty its own path only, refused exports stay byte-exact, imports under a read fault raise or return the right data, later un-faulted exports over dirty/longer files round-trip. Thorough enumerates every fault position of short histories (fault_enumeration). Sampling, not proof.",
+   note="Trusted: the kernel tmpfs, Pillow/gzip/json/pickle/numpy codecs, the harness' per-format equality. Not judged: the check-then-open window of _export, partial files after a failed overwrite=True export, swallowed write errors (counted only); .pcx excluded (Pillow codec quirk); write handles leaked by third-party code on a failed constructor (gzip) are closed by the simulator at the end of the operation."),
  "C15": dict(section="5.7", level="exploration",
    text="PYTHONHASHSEED is treated as the controlled nondeterminism source. Seeded histories of label operations (with_labels in original relative order, without_labels, get_label, add_label with new and existing names, remove_label legal and illegal, labels, copy, chained selections on results) on labelled graphs with 2-6 overlapping ASCII and non-ASCII labels, plus calls of all 33 index-based labellers (arrays, point clouds, labelled graphs, through a landmark manager; right and wrong sizes; 2D/3D) are executed under PYTHONHASHSEED=0 against a reference label model: returned points are exactly the points under the requested labels in original order, edges are the induced edges, remaining labels are restricted and in original order, every point carries a label after every operation, illegal removal raises, receivers and inputs are never modified; labellers are pure re-indexings (distinct input points), label every output point, commute with a similarity of the input, reject wrong sizes with LabellingError. The same histories are then re-executed in fresh interpreters under further hash seeds (quick: 3, thorough: 15) and the per-history outcome logs (label order, points, masks, sorted edges) must be identical; a difference is minimised with two live interpreters and reported with both hash seeds in the replay file. Sampling, not proof.",
    note="Trusted: CPython's hash randomisation as the only run-to-run variation; with_labels is only called with labels in their original relative order; the two bounding-box labellers are outside the clause; points are pairwise distinct so indices can be recovered by equality."),
